@@ -86,8 +86,14 @@ def run(ctx):
 
     # in-memory
     im = p.cls(INMEM)
-    f = im.methods.get("_update_cache")
-    ctx.require(f is not None, "R12: InMemoryStorage._update_cache vanished")
+    # the cache maintainer is found by its role, not its (private) name: the one method of
+    # InMemoryStorage that assigns <study>.best_trial_id
+    maint = [m for m in im.methods.values() if any(
+        isinstance(n, ast.Assign) and any(isinstance(t, ast.Attribute) and t.attr == "best_trial_id" and isinstance(t.ctx, ast.Store) for t in n.targets)
+        for n in own_nodes(m.node))]
+    ctx.require(len(maint) == 1, f"R12: expected one InMemoryStorage method maintaining best_trial_id, found {[m.name for m in maint]}")
+    f = maint[0]
+    UPD = f.name
     g = CFG(f.node, name=f.qualname)
 
     def atom_complete(e):
@@ -159,7 +165,7 @@ def run(ctx):
                 ctx.check(bool(c.args) and norm(c.args[0]) == src_name, "R12.2", f.short, f"source:{dotted(c.func)}",
                           message=f"best trial selected from `{norm(c.args[0]) if c.args else None}` instead of {src_name}", how=src_name)
     # in-memory: MAXIMIZE arm replaces when best < new
-    f = im.methods["_update_cache"]
+    f = im.methods[UPD]
     mx, mn, site = arms_of(f)
     ctx.require(mx is not None, "R12.2: direction site in _update_cache vanished")
     defs = single_defs(f.node)
@@ -242,7 +248,7 @@ def run(ctx):
     ctx.rule("R12.4", "in-memory: every path on which a trial can become COMPLETE passes _update_cache after publication; errors mirror the base")
     f = im.methods["set_trial_state_values"]
     g = CFG(f.node, name=f.qualname)
-    upd = [n for n in g.stmt_nodes() for c in n.calls() if self_attr(c.func) == "_update_cache"]
+    upd = [n for n in g.stmt_nodes() for c in n.calls() if self_attr(c.func) == UPD]
     pub = [n for n in g.stmt_nodes() for c in n.calls() if self_attr(c.func) == "_set_trial"]
     cur = {norm(x) for x in own_nodes(f.node) if isinstance(x, ast.Attribute) and x.attr == "state" and norm(x.value) not in ("self",) and not norm(x.value).endswith("TrialState")}
     bad = None
@@ -264,14 +270,14 @@ def run(ctx):
               how="explored with state=COMPLETE: every normal path to exit passes _update_cache, dominated by _set_trial", witness=bad)
     f = im.methods["create_new_trial"]
     g = CFG(f.node, name=f.qualname)
-    upd = [n for n in g.stmt_nodes() for c in n.calls() if self_attr(c.func) == "_update_cache"]
+    upd = [n for n in g.stmt_nodes() for c in n.calls() if self_attr(c.func) == UPD]
     pub = [n for n in g.stmt_nodes() for c in n.calls() if isinstance(c.func, ast.Attribute) and c.func.attr == "append" and norm(c.func.value).endswith(".trials")]
     ok = bool(upd) and bool(pub) and g.exit not in g.reachable([g.entry], avoid_nodes=upd, edge_ok=NORMAL) and all(g.dominated_by(u, pub) for u in upd)
     ctx.check(ok, "R12.4", f.short, "template-updates-cache",
               message="create_new_trial (a COMPLETE template) can return without _update_cache after appending the trial", how="append dominates _update_cache which is on every normal path")
     for n in upd:
         for c in n.calls():
-            if self_attr(c.func) == "_update_cache":
+            if self_attr(c.func) == UPD:
                 ctx.check([norm(a) for a in c.args] == ["trial_id", "study_id"], "R12.4", f.short, "update-args", message="cache updated for another trial/study", how="(trial_id, study_id)")
     f = im.methods["get_best_trial"]
     g = CFG(f.node, name=f.qualname)
@@ -325,7 +331,13 @@ def run(ctx):
                   and x.comparators[0].value == 0 for x in ast.walk(e))
         notnone = any(isinstance(x, ast.Compare) and isinstance(x.ops[0], ast.IsNot) and isinstance(x.comparators[0], ast.Constant) and x.comparators[0].value is None for x in ast.walk(e))
         return has_all and le0 and notnone
-    ctx.check(any(_feasible(n.test) for n in own_nodes(f.node) if isinstance(n, ast.If)), "R12.5", f.short, "feasibility-predicate",
+    # the predicate may be an `if` statement, the filter of a comprehension, or a conditional expression
+    preds = [n.test for n in own_nodes(f.node) if isinstance(n, (ast.If, ast.IfExp))]
+    for n in own_nodes(f.node):
+        if isinstance(n, ast.comprehension) and n.ifs:
+            preds.append(n.ifs[0] if len(n.ifs) == 1 else ast.BoolOp(op=ast.And(), values=list(n.ifs)))
+    conds = [norm(e) for e in preds]
+    ctx.check(any(_feasible(e) for e in preds), "R12.5", f.short, "feasibility-predicate",
               message=f"feasibility is decided by {conds}", how="constraints is not None and all(x <= 0.0)")
     f = p.func("optuna.study._multi_objective._get_pareto_front_trials_by_trials")
     g = CFG(f.node, name=f.qualname)
